@@ -13,7 +13,7 @@ import sys, os, collections, collections.abc, types, inspect
 import gen_C08
 
 ID = 'C08'
-GEN = [('Gen/C08_Keys.v', gen_C08.generate_keys), ('Gen/C08_Shape.v', gen_C08.generate_shape)]
+GEN = [('Gen/C08_Keys.v', gen_C08.generate_keys), ('Gen/C08_Shape.v', gen_C08.generate_shape), ('Gen/C08_Frame.v', gen_C08.generate_frame)]
 EQUIV_FILES = ['Proofs/C08.v']
 EXTRACT = 'Extract/C08_x.v'
 
@@ -35,11 +35,11 @@ class ROMapping(collections.abc.Mapping):
 
 KIND_NAMES = {0: 'dict', 1: 'OrderedDict', 2: 'MappingProxyType', 3: 'ROMapping'}
 
-def build(n, defs=None, memo=None):
+def build(n, defs=None, memo=None, reg=None):
     if memo is None: memo = {}
     t = n[0]
     if t == 'r':
-        if n[1] not in memo: memo[n[1]] = build(defs[n[1]], defs, memo)
+        if n[1] not in memo: memo[n[1]] = build(defs[n[1]], defs, memo, reg=n[1])
         return memo[n[1]]
     if t == 's': return n[1]
     if t == 'i': return n[1]
@@ -50,13 +50,12 @@ def build(n, defs=None, memo=None):
     if t == 'l': return [build(x, defs, memo) for x in n[1]]
     if t == 't': return tuple(build(x, defs, memo) for x in n[1])
     if t == 'm':
-        d = {}
+        d = collections.OrderedDict() if n[1] == 1 else {}
+        w = {0: d, 1: d, 2: types.MappingProxyType(d), 3: ROMapping(d)}[n[1]]
+        if reg is not None: memo[reg] = w            # registered before it is filled: a def may (indirectly) contain itself
         for k, v in n[2]:
             d[build(k, defs, memo)] = build(v, defs, memo)
-        if n[1] == 0: return d
-        if n[1] == 1: return collections.OrderedDict(d)
-        if n[1] == 2: return types.MappingProxyType(d)
-        if n[1] == 3: return ROMapping(d)
+        return w
     raise ValueError('bad node %r' % (n,))
 
 def expand(n, defs):
@@ -129,16 +128,22 @@ def strings_under_mappings(t, acc):
             else: strings_under_mappings(v, acc)
     return acc
 
-def snapshot(o):
-    """deep picture of the argument: content, order, concrete types, and the identity of every container"""
+def snapshot(o, seen=None):
+    """deep picture of the argument: content, order, concrete types, and the identity of every container
+    (an object met again — shared or cyclic — is recorded as a back reference)"""
+    if seen is None: seen = {}
+    if isinstance(o, (collections.abc.Mapping, list, tuple)):
+        if id(o) in seen: return ('ref', seen[id(o)])
+        seen[id(o)] = len(seen)
     if isinstance(o, collections.abc.Mapping):
-        return ('M', kind_of(o), id(o), [(tag(k), id(k), snapshot(v)) for k, v in o.items()])
+        return ('M', kind_of(o), id(o), [(tag(k), id(k), snapshot(v, seen)) for k, v in o.items()])
     if isinstance(o, (list, tuple)):
-        return (type(o).__name__, id(o), [snapshot(x) for x in o])
+        return (type(o).__name__, id(o), [snapshot(x, seen) for x in o])
     return (tag(o), id(o))
 
 def mapping_ids(o, acc):
     if isinstance(o, collections.abc.Mapping):
+        if id(o) in acc: return acc
         acc.add(id(o))
         if isinstance(o, (ROMapping,)): acc.add(id(o._d))
         for v in o.values(): mapping_ids(v, acc)
@@ -152,6 +157,94 @@ def result_mapping_ids(r, acc):
         acc.add(id(r))
         for v in r.values(): result_mapping_ids(v, acc)
     return acc
+
+
+# ------------------------------------------------------------------ object identity (op mdph)
+
+def heap_of(obj, secret_obj):
+    """a location for every object reachable from the argument through mapping values (by identity, pre-order),
+    then one for the secret object.  Returns ({id: loc}, [objects], secret loc, whether '@s' is reported)."""
+    locs = {}; objs = []
+    stack = [obj]
+    def visit(o):
+        if id(o) in locs: return
+        locs[id(o)] = len(objs); objs.append(o)
+        if isinstance(o, collections.abc.Mapping):
+            for v in o.values(): visit(v)
+    visit(obj)
+    # the identity of the secret is only reported when the secret object is not also an object of the argument
+    # (CPython shares '' and one-character strings, and mask_password may hand its argument back)
+    report = 0
+    if id(secret_obj) not in locs:
+        locs[id(secret_obj)] = len(objs); objs.append(secret_obj); report = 1
+    return locs, objs, locs[id(secret_obj)], report
+
+def ser_id(r, locs, secret_obj, report, depth=0):
+    if depth > 80: return '!'
+    ident = '@%d' % locs[id(r)] if id(r) in locs else '#'
+    if isinstance(r, str):
+        return 'S%d:%s' % (len(r), r) + ('@s' if (r is secret_obj and report) else '~')
+    if isinstance(r, collections.abc.Mapping):
+        out = 'M%d,%d%s:' % (kind_of(r), len(r), ident)
+        for k, v in r.items():
+            ck = canon_key(k)
+            out += '%s%d:%s' % (ck[0], len(ck[1]), ck[1]) + ser_id(v, locs, secret_obj, report, depth + 1)
+        return out
+    t = tag(r)
+    return 'O%d:%s' % (len(t), t) + ident
+
+def _secret_obj(c):
+    if c['secret'] is not None: return c['secret']
+    return inspect.signature(_su().mask_dict_password).parameters['secret'].default
+
+MODEL_FUEL = 64          # stands for the interpreter's recursion limit (generated structures are at most ~8 deep)
+
+def impl_h(c):
+    su = _su()
+    obj = build(c['d'], c.get('defs'))
+    secret_obj = _secret_obj(c)
+    locs, objs, sloc, report = heap_of(obj, secret_obj)
+    before = snapshot(obj)
+    try:
+        r = su.mask_dict_password(obj) if c['secret'] is None else su.mask_dict_password(obj, c['secret'])
+    except RecursionError:
+        out = 'EXN:RuntimeError'       # RecursionError is a RuntimeError; the model's fuel plays the recursion limit
+    except Exception as e:
+        out = 'EXN:' + type(e).__name__
+    else:
+        out = ser_id(r, locs, secret_obj, report)
+    mut = 0 if snapshot(obj) == before else 1
+    return 'MUT:%d H %s' % (mut, out)
+
+def encode_h(c):
+    su = _su()
+    obj = build(c['d'], c.get('defs'))
+    secret_obj = _secret_obj(c)
+    if not isinstance(secret_obj, str): return None
+    locs, objs, sloc, report = heap_of(obj, secret_obj)
+    secs = []
+    for s in (secret_obj, inspect.signature(su.mask_dict_password).parameters['secret'].default,
+              inspect.signature(su.mask_password).parameters['secret'].default):
+        if isinstance(s, str) and s not in secs: secs.append(s)
+    table = []
+    try:
+        for s in sorted({o for o in objs if isinstance(o, str)}):
+            for sec in secs:
+                r = su.mask_password(s, sec)
+                if type(r) is not str: return None
+                table += [s, sec, r]
+    except Exception:
+        return None
+    toks = []
+    for o in objs:
+        if isinstance(o, str): toks += ['S', o]
+        elif isinstance(o, collections.abc.Mapping):
+            toks += ['D', str(kind_of(o)), str(len(o))]
+            for k, v in o.items():
+                ck = canon_key(k)
+                toks += [ck[0], ck[1], str(locs[id(v)])]
+        else: toks += ['O', tag(o)]
+    return ['mdph', str(MODEL_FUEL), str(sloc), str(report), '0', str(len(table) // 3)] + table + [str(len(objs))] + toks
 
 
 # ------------------------------------------------------------------ implementation side
@@ -172,6 +265,7 @@ def impl(c):
             if r[k] == 'M' and type(r[k]) is str: return 'True'
             if r[k] == 0 and type(r[k]) is int: return 'False'
         return 'OTHER:' + repr(r)[:80]
+    if c['op'] == 'mdph': return impl_h(c)
     obj = build(c['d'], c.get('defs'))
     before = snapshot(obj)
     arg_ids = mapping_ids(obj, set())
@@ -191,6 +285,7 @@ def impl(c):
 
 def project(c, io):
     if c['op'] == 'key': return io
+    if c['op'] == 'mdph': return io.split(' ', 2)[2]
     return io.split(' ', 2)[2]
 
 def _secret_of(c):
@@ -200,6 +295,7 @@ def _secret_of(c):
 def encode(c):
     if c['op'] == 'key':
         return ['key', c['k']]
+    if c['op'] == 'mdph': return encode_h(c)
     su = _su()
     t = canon(build(c['d'], c.get('defs')))      # a DAG is encoded as the tree it denotes
     secret = _secret_of(c)
@@ -309,6 +405,13 @@ def oracle(c, io):
         if kv is not None and io != str(kv):
             return 'key %r: masked=%s, but it %s a sanitize key case-insensitively' % (c['k'], io, 'contains' if kv else 'does not contain')
         return None
+    if c['op'] == 'mdph':
+        # model-free part: the argument is unmodified; on a cyclic argument nothing else is demanded
+        if not io.startswith('MUT:0 '): return 'the argument was modified by the call'
+        if c.get('cyclic'): return None
+        c = dict(c, op='mdp')
+        plain, alias = _strip_ids(io.split(' ', 2)[2])
+        io = 'MUT:0 ALIAS:%d %s' % (alias, plain)
     mutf, aliasf, out = io.split(' ', 2)
     n = expand(c['d'], c.get('defs'))
     if mutf != 'MUT:0': return 'the argument was modified by the call'
@@ -331,8 +434,38 @@ def oracle(c, io):
     if aliasf != 'ALIAS:0': return 'a mapping inside the result is an object of the argument (not a new dict)'
     return None
 
+def _strip_ids(s):
+    """the plain serialisation (ser) of an identity-annotated one (ser_id)"""
+    if s.startswith('EXN:'): return s, 0
+    out = []; alias = [0]
+    def node(i):
+        c0 = s[i]
+        if c0 in 'SOso':
+            j = s.index(':', i); n = int(s[i + 1:j]); e = j + 1 + n
+            out.append(s[i:e])
+            if c0 in 'so': return e
+            if c0 == 'S': return e + (2 if s.startswith('@s', e) else 1)
+            if s[e] == '#': return e + 1
+            k = e + 1
+            while k < len(s) and s[k].isdigit(): k += 1
+            return k
+        if c0 == 'M':
+            j = s.index(':', i); head = s[i + 1:j]
+            kd, rest = head.split(',')
+            n = ''
+            while rest and rest[0].isdigit(): n += rest[0]; rest = rest[1:]
+            if rest.startswith('@'): alias[0] = 1
+            out.append('M%s,%s:' % (kd, n)); p = j + 1
+            for _ in range(int(n)):
+                p = node(p); p = node(p)
+            return p
+        raise ValueError('strip at %d' % i)
+    node(0)
+    return ''.join(out), alias[0]
+
 def classify(c, io):
     if c['op'] == 'key': return 'key:' + io[:5]
+    if c['op'] == 'mdph': return 'mdph:%s%s' % ('cyclic' if c.get('cyclic') else 'dag' if c.get('defs') else 'tree', ':exn' if ' EXN:' in io else '')
     n = c['d']
     if c.get('defs'): return 'mdp:dag%s' % (':exn' if ' EXN:' in io else '')
     return 'mdp:%s%s' % (KIND_NAMES.get(n[1], '?') if n[0] == 'm' else 'nonmapping', ':exn' if ' EXN:' in io else '')
@@ -576,7 +709,23 @@ def boundary_cases(rng, keys):
         yield {'op': 'key', 'k': k.upper()}
         for _ in range(3): yield {'op': 'key', 'k': near_miss(rng, k)}
 
+def cyclic_cases(rng, keys):
+    S = lambda x: ['s', x]; R = lambda x: ['r', x]
+    for kd in range(4):
+        yield {'defs': {'d': ['m', kd, [[S('self'), R('d')]]]}, 'd': R('d')}
+        yield {'defs': {'d': ['m', kd, [[S('password'), S('x')], [S('n'), ['m', 0, [[S('back'), R('d')], [S('token'), ['i', 1]]]]]]]}, 'd': R('d')}
+        yield {'defs': {'d': ['m', kd, [[S('a'), R('e')]]], 'e': ['m', 3 - kd, [[S('secret'), R('d')], [S('l'), ['l', []]]]]},
+               'd': ['m', 0, [[S('x'), S('password=abc')], [S('cyc'), R('d')]]]}
+
 def gen_cases(rng, tier):
+    for c in _gen_cases(rng, tier):
+        yield c
+        if c['op'] == 'mdp' and 'pre' not in c:
+            yield dict(c, op='mdph')        # the same argument through the identity-aware comparison
+    for c in cyclic_cases(rng, all_keys()):
+        yield dict(c, op='mdph', secret=rng.choice(SECRETS), cyclic=True)
+
+def _gen_cases(rng, tier):
     keys = all_keys()
     yield from boundary_cases(rng, keys)
     n = 2500 if tier == "quick" else 150000
@@ -611,27 +760,36 @@ RULE = ('every sanitize key (35 of the property reading + whatever the module li
         'values str (12 secret-bearing shapes and plain), bytes, numbers incl. nan/inf, None, bool, lists/tuples (also holding dicts), mappings; '
         'non-mapping arguments; secrets incl. empty, non-ASCII, default; DAG-shaped arguments (one mapping object — every kind, empty and not — or one list/str '
         'referenced 2-3 times at one level and across depths, shared mappings holding shared mappings); repeated calls on one argument object with '
-        'different secrets before the observed call; key-test stream; distinct = distinct case JSON')
+        'different secrets before the observed call; every mdp case again through the identity-aware comparison (op mdph); self-containing (cyclic) '
+        'mappings of every kind; key-test stream; distinct = distinct case JSON')
 LEVEL_TEXT = ('Proved for nested mappings of any depth and width (no bound): the result satisfies the four-rule relation Masked (mapping -> recursed whatever '
               'the key; non-mapping under a secret str key -> the mask; other str -> mask_password; anything else unchanged), Masked is functional, the keys '
               'are the same in the same order at every level and every rebuilt container is a dict, a mapping under a secret key is recursed into, a '
               'non-mapping argument gives TypeError; the 35 documented keys are all in the regenerated key list and the key test is substring-of-lower(). '
               'The loop body is regenerated from the AST as a term and evaluated by the model (reordered branches / dropped recursion change it). '
-              '"The argument and everything reachable from it is left unmodified" and "new dict" (object identity) are NOT expressible in the functional '
-              'model: they are decided by the harness only (deep snapshot incl. object identities before/after every call; result mappings disjoint from '
-              'argument mappings).')
-LEVEL_NOTE = ('Trusted: Coq kernel; translator tools/gen/gen_C08.py (syntactic AST-to-term; evaluated key list); CPython isinstance/dict/str.lower as modelled '
-              '(Base/Str.py_lower from the interpreter\'s Unicode table, final-sigma rule proved irrelevant for sigma-free keys); mask_password is an abstract '
-              'function (Section variable), instantiated in the correspondence by the real function\'s graph. Non-modification/aliasing: harness only.')
+              'Object identity is modelled by a heap semantics (locations, objects, values are references; out = {} allocates, out[k] = ... writes to that '
+              'location only; where the function writes and what it returns are regenerated from the source): C08_argument_unmodified — every location that '
+              'existed before the call holds the same object afterwards, for ANY heap (shared, cyclic); C08_heap_agrees_with_tree_and_result_fresh — for an '
+              'acyclic (arbitrarily shared) argument the call succeeds, the result reads back as exactly the functional model\'s tree, and every dict in it '
+              'was allocated by the call; C08_result_sharing — secret slots are the secret reference, lists/bytes/numbers are the argument\'s own references; '
+              'C08_cycle_RecursionError. The implementation\'s `is` relation between result slots and argument objects is compared with the model\'s on every case.')
+LEVEL_NOTE = ('Trusted: Coq kernel; translator tools/gen/gen_C08.py (syntactic AST-to-term; evaluated key list; write targets / return variable); CPython '
+              'isinstance/dict/str.lower as modelled (Base/Str.py_lower from the interpreter\'s Unicode table, final-sigma rule proved irrelevant for sigma-free '
+              'keys); the heap abstraction (keys inline, items() read when the loop starts, strings immutable); mask_password is an abstract function (Section '
+              'variables mp / mp_h with the contract "only allocates; returns a reference holding mask_password(message, secret)" as premises), instantiated in '
+              'the correspondence by the real function\'s graph.')
 TRUSTED = ['mask_password is abstract in the theorems (Section variable, total str -> str -> str); the correspondence supplies the real function\'s graph, '
            'the oracle calls the real function for rule 3',
            'str.lower() = Base/Str.py_lower (per-code-point table regenerated from the running CPython); the context-sensitive final-sigma rule is not '
            'modelled and proved irrelevant for key lists without sigma (C08_final_sigma_irrelevant)']
-ASSUMPTIONS = ['the functional model has no object identity: an argument in which one object is reachable several times (a DAG) is encoded for the model as '
+ASSUMPTIONS = ['"never modifies its argument" / "new dict" are theorems about the HEAP MODEL (Model/C08_Heap.v), tied to the implementation by comparing, on every case, '
+               'content plus identity of every result slot (argument object @loc / allocated by the call / the secret object) and by the before/after snapshot of the '
+               'argument (content, order, types, object identities); identity of strings returned by mask_password is not compared (CPython may hand its argument back)',
+               'cyclic arguments: the model\'s fuel stands for the interpreter\'s recursion limit (RecursionError is reported as its base class RuntimeError); only '
+               'non-modification is demanded of the implementation there',
+               'the functional model has no object identity: an argument in which one object is reachable several times (a DAG) is encoded for the model as '
                'the tree it denotes; the implementation is run on the real shared objects, and the two occurrences in the result may or may not be one object '
                '(neither is demanded)',
-               '"never modifies its argument" / "new dict": aliasing facts, checked by the harness only (snapshot with object identities before and after; '
-               'identity-disjointness of result and argument mappings) — not a Coq theorem',
                'mappings have pairwise distinct keys at every level (hypothesis wf of the theorems; true of every dict / Mapping built by the harness)',
                'secrets are str without backslashes (a backslash makes mask_password\'s own re template raise; such cases give no verdict)',
                'keys whose case-insensitive reading is ambiguous (lower() vs casefold() disagree: long s, sharp s, dotted capital I at a match border) '
